@@ -161,4 +161,91 @@ theorem point_ok (strict : Bool) (p : Prog) (cert : Cert) (init : St)
   rw [hsplit] at hc
   exact evsOk_prefix strict pre e post s hc.1
 
+
+/-! ### leak-tolerant variant
+
+For resources that may be dropped (a pooled buffer still owned at `return` goes to the garbage
+collector): an exit is acceptable when the deferred releases do not exceed what is held. The
+per-event conditions (no release of something not held, `need` satisfied, `strict`) are the same. -/
+
+def checkBlockL (strict : Bool) (cert : Cert) (i : Nat) (b : Block) : Bool :=
+  match cert[i]? with
+  | none => false
+  | some s0 =>
+    evsOk strict b.evs s0 &&
+    (let s1 := runEvs b.evs s0
+     if b.succs.isEmpty then decide (s1.2 ≤ s1.1)
+     else b.succs.all fun j => cert[j]? == some s1)
+
+def checkFromL (strict : Bool) (cert : Cert) : Nat → List Block → Bool
+  | _, [] => true
+  | i, b :: bs => checkBlockL strict cert i b && checkFromL strict cert (i + 1) bs
+
+def checkL (strict : Bool) (p : Prog) (cert : Cert) (init : St) : Bool :=
+  (cert[0]? == some init) && checkFromL strict cert 0 p
+
+theorem checkFromL_get (strict : Bool) (cert : Cert) :
+    ∀ (bs : List Block) (k i : Nat) (b : Block), checkFromL strict cert k bs = true →
+      bs[i]? = some b → checkBlockL strict cert (k + i) b = true := by
+  intro bs
+  induction bs with
+  | nil => intro k i b _ h; simp at h
+  | cons b0 bs ih =>
+    intro k i b hc hg
+    simp only [checkFromL, Bool.and_eq_true] at hc
+    cases i with
+    | zero => simp at hg; subst hg; simpa using hc.1
+    | succ n =>
+      simp at hg
+      have := ih (k + 1) n b hc.2 hg
+      rw [show k + (n + 1) = k + 1 + n by omega]; exact this
+
+theorem checkL_block (strict : Bool) (p : Prog) (cert : Cert) (init : St)
+    (h : checkL strict p cert init = true) (i : Nat) (b : Block) (hb : p[i]? = some b) :
+    checkBlockL strict cert i b = true := by
+  simp only [checkL, Bool.and_eq_true] at h
+  have := checkFromL_get strict cert p 0 i b h.2 hb
+  simpa using this
+
+theorem cert_soundL (strict : Bool) (p : Prog) (cert : Cert) (init : St)
+    (h : checkL strict p cert init = true) :
+    ∀ i s, Reach p init i s → cert[i]? = some s := by
+  intro i s hr
+  induction hr with
+  | entry =>
+    simp only [checkL, Bool.and_eq_true] at h
+    simpa using h.1
+  | @step i j s b _ hb hj ih =>
+    have hc := checkL_block strict p cert init h i b hb
+    simp only [checkBlockL, ih, Bool.and_eq_true] at hc
+    have hne : b.succs.isEmpty = false := by
+      cases hs : b.succs with
+      | nil => rw [hs] at hj; simp at hj
+      | cons _ _ => rfl
+    rw [hne] at hc
+    simp only [Bool.false_eq_true, ↓reduceIte, List.all_eq_true] at hc
+    have := hc.2 j hj
+    simpa using this
+
+theorem point_okL (strict : Bool) (p : Prog) (cert : Cert) (init : St)
+    (h : checkL strict p cert init = true) (i : Nat) (s : St) (b : Block)
+    (hr : Reach p init i s) (hb : p[i]? = some b) (pre : List Ev) (e : Ev) (post : List Ev)
+    (hsplit : b.evs = pre ++ e :: post) :
+    e.okAfter strict (runEvs pre s) = true := by
+  have hs := cert_soundL strict p cert init h i s hr
+  have hc := checkL_block strict p cert init h i b hb
+  simp only [checkBlockL, hs, Bool.and_eq_true] at hc
+  rw [hsplit] at hc
+  exact evsOk_prefix strict pre e post s hc.1
+
+/-- at an exit nothing more is given back than is held (no double release through `defer`) -/
+theorem exit_no_excessL (strict : Bool) (p : Prog) (cert : Cert) (init : St)
+    (h : checkL strict p cert init = true) (i : Nat) (s : St) (b : Block)
+    (hr : Reach p init i s) (hb : p[i]? = some b) (hexit : b.succs = []) :
+    (runEvs b.evs s).2 ≤ (runEvs b.evs s).1 := by
+  have hs := cert_soundL strict p cert init h i s hr
+  have hc := checkL_block strict p cert init h i b hb
+  simp only [checkBlockL, hs, Bool.and_eq_true, hexit] at hc
+  simpa using hc.2
+
 end NV.CFG
